@@ -150,7 +150,7 @@ class Bits(object):
             f = lambda x:x
         else:
             f = lambda x:x
-            bitorder = l
+            bitorder = l or 1
         if l%bitorder != 0:
             raise ValueError("v length must be a multiple of bitorder.")
         v = 0
